@@ -162,25 +162,43 @@ def partitions(tier):
                                              'S': b['S'],
                                              'pinned_first_bits': list(pin)}})
                 if not pin or sum(pin) == 0:
-                    parts.append({'name': (nm if not pin else nm[:nm.rindex('_p')]) + '_hash0', 'kind': 'choices',
-                                  'run': make_run(st, j, sc, ms, tier, pin=(),
-                                                  oracle='hash0'),
-                                  'budget_s': 170 if tier == 'quick' else 850,
-                                  'bounds': {'strategy': st, 'script': sc,
-                                             'mutators': ms, 'jobs': j,
-                                             'oracle': 'hash-classes',
-                                             'S': b['S'],
-                                             'pinned_first_bits': list(pin)}})
+                    base_nm = nm if not pin else nm[:nm.rindex('_p')]
+                    # thorough, several workers: split by the verdict of the
+                    # first hash class
+                    for hp in ([()] if tier == 'quick' or j == 1
+                               else [(0,), (1,)]):
+                        parts.append({'name': base_nm + (f'_q{hp[0]}' if hp
+                                                        else '') + '_hash0',
+                                      'kind': 'choices',
+                                      'run': make_run(st, j, sc, ms, tier,
+                                                      pin=hp, oracle='hash0'),
+                                      'budget_s': 170 if tier == 'quick'
+                                      else 850,
+                                      'bounds': {'strategy': st, 'script': sc,
+                                                 'mutators': ms, 'jobs': j,
+                                                 'oracle': 'hash-classes',
+                                                 'S': b['S'],
+                                                 'pinned_first_bits':
+                                                 list(hp)}})
                 if not pin or sum(pin) == 0:
-                    parts.append({'name': (nm if not pin else nm[:nm.rindex('_p')]) + '_hash1', 'kind': 'choices',
-                                  'run': make_run(st, j, sc, ms, tier, pin=(),
-                                                  oracle='hash1'),
-                                  'budget_s': 170 if tier == 'quick' else 850,
-                                  'bounds': {'strategy': st, 'script': sc,
-                                             'mutators': ms, 'jobs': j,
-                                             'oracle': 'hash-classes',
-                                             'S': b['S'],
-                                             'pinned_first_bits': list(pin)}})
+                    base_nm = nm if not pin else nm[:nm.rindex('_p')]
+                    # thorough, several workers: split by the verdict of the
+                    # first hash class
+                    for hp in ([()] if tier == 'quick' or j == 1
+                               else [(0,), (1,)]):
+                        parts.append({'name': base_nm + (f'_q{hp[0]}' if hp
+                                                        else '') + '_hash1',
+                                      'kind': 'choices',
+                                      'run': make_run(st, j, sc, ms, tier,
+                                                      pin=hp, oracle='hash1'),
+                                      'budget_s': 170 if tier == 'quick'
+                                      else 850,
+                                      'bounds': {'strategy': st, 'script': sc,
+                                                 'mutators': ms, 'jobs': j,
+                                                 'oracle': 'hash-classes',
+                                                 'S': b['S'],
+                                                 'pinned_first_bits':
+                                                 list(hp)}})
                 if ms == 'consts' and (not pin or sum(pin) == 0):
                     parts.append({'name': (nm if not pin else nm[:nm.rindex('_p')]) + '_shape', 'kind': 'choices',
                                   'run': make_run(st, j, sc, ms, tier, pin=(),
